@@ -907,6 +907,7 @@ pub fn run(ctx: &Ctx) -> Report {
         "in-process defines carry unsized integers (0x10 is 16); the drive family passes the spelled text".into(),
         "model failure means: the real run is not a clean success (an error diagnostic or no output)".into(),
     ];
+    super::c16_extra::run_extra(&mut rep);
     for c in [
         "ok",
         "error:undecidable-condition",
